@@ -121,7 +121,7 @@ func (g *Gen) genC13(n int) error {
 				c.maxDocs = 5
 			}
 		}, func(m string) {
-			g.thesQueries(m, false)
+			g.thesQueries(m, true)
 		}, depth)
 		g.st("case")
 	}
